@@ -47,6 +47,29 @@ template <int C, int R, typename T> static void op_matvec(const Case& c, Outcome
   for (int r = 0; r < R; ++r) { glm::mat<C, R, T> s = glm::row(A, r, v); for (int cc = 0; cc < C; ++cc) for (int rr = 0; rr < R; ++rr) { i64 w = rr == r ? W(vw[cc]) : a.a[cc][rr]; if (!eqv<T>(s[cc][rr], w)) { o.res((uint64_t)(i64)s[cc][rr], cc * 4 + rr); o.exp((uint64_t)w); o.bad(7, "row(A, r, v): must replace exactly row r"); return; } } }
   for (int cc = 0; cc < C; ++cc) { glm::mat<C, R, T> s = glm::column(A, cc, u); for (int c2 = 0; c2 < C; ++c2) for (int rr = 0; rr < R; ++rr) { i64 w = c2 == cc ? W(vw[C + rr]) : a.a[c2][rr]; if (!eqv<T>(s[c2][rr], w)) { o.res((uint64_t)(i64)s[c2][rr], c2 * 4 + rr); o.exp((uint64_t)w); o.bad(8, "column(A, c, v): must replace exactly column c"); return; } } }
 }
+// ------------------------------------------------------------------ inexact entries: "differs only by the rounding of the individual products and sums"
+// the same lattices, every entry e replaced by e/7 (inexact in binary): products and sums round, so the oracle is the exact sum of the products of the
+// STORED operands (long double / __float128-free: products of two T values are exact in long double for float, and for double the tolerance absorbs it)
+// within (K+2) u sum|terms| (forward error of a length-K dot product); single products A*s, matrixCompMult, outerProduct must be correctly rounded.
+template <typename T> static inline T fr(uint64_t w) { return (T)((long double)W(w) / 7.0L); }
+template <int C, int R, int C2, typename T> static void op_matmul_frac(const Case& c, Outcome& o) {
+  typedef long double LD; const LD u = sizeof(T) == 4 ? 0x1p-24L : 0x1p-53L; o.cls(0);
+  glm::mat<C, R, T> A; glm::mat<C2, C, T> B; for (int cc = 0; cc < C; ++cc) for (int r = 0; r < R; ++r) A[cc][r] = fr<T>(c.w[cc * R + r]); for (int cc = 0; cc < C2; ++cc) for (int r = 0; r < C; ++r) B[cc][r] = fr<T>(c.w[C * R + cc * C + r]);
+  glm::vec<C, T> v; for (int k = 0; k < C; ++k) v[k] = B[0][k]; glm::vec<R, T> w; for (int r = 0; r < R; ++r) w[r] = A[0][r];
+  glm::mat<C2, R, T> P = A * B;
+  for (int cc = 0; cc < C2; ++cc) for (int r = 0; r < R; ++r) { LD s = 0, m = 0; for (int k = 0; k < C; ++k) { LD t = (LD)A[k][r] * (LD)B[cc][k]; s += t; m += fabsl(t); }
+    if (!(fabsl((LD)P[cc][r] - s) <= (C + 2) * u * m)) { o.res(sizeof(T) == 4 ? b32((float)P[cc][r]) : b64((double)P[cc][r]), cc * 4 + r); o.exp(b64((double)s)); o.bad(1, "(A*B)[c][r] differs from sum_k A[k][r]*B[c][k] by more than the rounding of the products and sums"); return; } }
+  glm::vec<R, T> mv = A * v; for (int r = 0; r < R; ++r) { LD s = 0, m = 0; for (int k = 0; k < C; ++k) { LD t = (LD)A[k][r] * (LD)v[k]; s += t; m += fabsl(t); }
+    if (!(fabsl((LD)mv[r] - s) <= (C + 2) * u * m)) { o.res(sizeof(T) == 4 ? b32((float)mv[r]) : b64((double)mv[r]), r); o.exp(b64((double)s)); o.bad(2, "(A*v)[r] differs from sum_k A[k][r]*v[k] by more than rounding"); return; } }
+  glm::vec<C, T> vm = w * A; for (int cc = 0; cc < C; ++cc) { LD s = 0, m = 0; for (int r = 0; r < R; ++r) { LD t = (LD)w[r] * (LD)A[cc][r]; s += t; m += fabsl(t); }
+    if (!(fabsl((LD)vm[cc] - s) <= (R + 2) * u * m)) { o.res(sizeof(T) == 4 ? b32((float)vm[cc]) : b64((double)vm[cc]), cc); o.exp(b64((double)s)); o.bad(3, "(v*A)[c] differs from sum_r v[r]*A[c][r] by more than rounding"); return; } }
+  // one rounding each: must be the correctly rounded product / quotient / sum of the stored operands (the C++ operator on T is that)
+  T sc = B[0][0]; glm::mat<C, R, T> As = A * sc, sA = sc * A, Ap = A + A * sc, Am = A - sA; auto op = glm::outerProduct(w, v);
+  for (int cc = 0; cc < C; ++cc) for (int r = 0; r < R; ++r) { T p = (T)(A[cc][r] * sc);
+    if (!(As[cc][r] == p) || !(sA[cc][r] == (T)(sc * A[cc][r])) || !(Ap[cc][r] == (T)(A[cc][r] + p)) || !(Am[cc][r] == (T)(A[cc][r] - (T)(sc * A[cc][r]))) || !(op[cc][r] == (T)(w[r] * v[cc]))) { o.res(cc * 4 + r); o.bad(4, "A*s, s*A, A+B, A-B, outerProduct: an element is not the correctly rounded single operation on the stored operands"); return; }
+    if (sc != 0) { glm::mat<C, R, T> Ad = A / sc; if (!(Ad[cc][r] == (T)(A[cc][r] / sc))) { o.res(cc * 4 + r); o.bad(5, "(A/s)[c][r] is not the correctly rounded quotient A[c][r]/s"); return; } } }
+}
+
 // ------------------------------------------------------------------ element-wise operators, two matrices + scalar
 template <int C, int R, typename T> static void op_elementwise(const Case& c, Outcome& o) {
   glm::mat<C, R, T> A = mk<C, R, T>(c.w), B = mk<C, R, T>(c.w + C * R); Ref a = mkr<C, R>(c.w), b = mkr<C, R>(c.w + C * R); i64 sv = W(c.w[2 * C * R]); T s = cv<T>(sv); o.cls(0);
@@ -162,6 +185,9 @@ template <int C, int R, typename T> static void reg_shape(Engine& E, const std::
   { Op& op = E.add("mat" + sh + " * mat2x" + std::to_string(C), op_matmul<C, R, 2, T>); setd(op, lattice(C * R + 2 * C, false), lattice(C * R + 2 * C, C * R + 2 * C <= 18)); }
   { Op& op = E.add("mat" + sh + " * mat3x" + std::to_string(C), op_matmul<C, R, 3, T>); setd(op, lattice(C * R + 3 * C, false), lattice(C * R + 3 * C, C * R + 3 * C <= 18)); }
   { Op& op = E.add("mat" + sh + " * mat4x" + std::to_string(C), op_matmul<C, R, 4, T>); setd(op, lattice(C * R + 4 * C, false), lattice(C * R + 4 * C, false)); }
+  if constexpr (std::is_floating_point<T>::value) { Op& op = E.add("inexact entries e/7: mat" + sh + " * mat{2,3,4}x" + std::to_string(C) + ", M*v, v*M within rounding; single-rounding operators exact", op_matmul_frac<C, R, 3, T>); setd(op, lattice(C * R + 3 * C, false), lattice(C * R + 3 * C, C * R + 3 * C <= 18));
+    Op& op2 = E.add("inexact entries e/7: mat" + sh + " * mat2x" + std::to_string(C), op_matmul_frac<C, R, 2, T>); setd(op2, lattice(C * R + 2 * C, false), lattice(C * R + 2 * C, C * R + 2 * C <= 18));
+    Op& op4 = E.add("inexact entries e/7: mat" + sh + " * mat4x" + std::to_string(C), op_matmul_frac<C, R, 4, T>); setd(op4, lattice(C * R + 4 * C, false), lattice(C * R + 4 * C, false)); }
   { Op& op = E.add("mat" + sh + ": M*v, v*M, outerProduct, transpose, row/column", op_matvec<C, R, T>); setd(op, lattice(C * R + C + R, false), lattice(C * R + C + R, true)); }
   { Op& op = E.add("mat" + sh + ": element-wise operators, compound assignment, ++/--, ==", op_elementwise<C, R, T>); setd(op, lattice(2 * C * R, false, 1), lattice(2 * C * R, false, 1)); }
   { Op& op = E.add("mat*(mat" + sh + "): 9 shape conversions, diagonal ctor", op_convert<C, R, T>); setd(op, lattice(C * R, false), lattice(C * R, true)); }
